@@ -249,6 +249,27 @@ func main() {
 		}
 		w.Emit("copy", hx.Case{ID: id, Coq: msgx.RunCopy(hx.NewRNG(o.Seed, id)), Desc: map[string]any{"kind": "copy"}, FKey: "copy"})
 	}
+	nl := o.Count(60, 1500)
+	if o.N > 0 {
+		nl = 1 + o.N/15
+	}
+	for i := 0; i < nl; i++ {
+		id := fmt.Sprintf("lazy/%d", i)
+		if !o.Want(id) {
+			continue
+		}
+		lc := msgx.GenLazyCase(hx.NewRNG(o.Seed, id))
+		coq, err := lc.Run(func() *hx.RNG { return hx.NewRNG(o.Seed, id+"/render") })
+		if err == msgx.ErrSlow {
+			w.Tally("skipped-slow", 1)
+			continue
+		}
+		if err != nil {
+			fmt.Fprintf(os.Stderr, "case %s: %v\n", id, err)
+			os.Exit(3)
+		}
+		w.Emit("lazy", hx.Case{ID: id, Coq: coq, Desc: map[string]any{"kind": "lazy", "steps": len(lc.Steps)}, FKey: "lazy"})
+	}
 	n := o.Count(900, 15000)
 	for i := 0; i < n; i++ {
 		id := fmt.Sprintf("rnd/%d", i)
